@@ -201,7 +201,8 @@ class ID3(ID3Tags, mutagen.Metadata):
         needed = len(framedata) + 10
 
         fileobj.seek(0, 2)
-        trailing_size = fileobj.tell() - start
+        # the data following the tag; the old tag itself doesn't count
+        trailing_size = max(0, fileobj.tell() - start - available)
 
         info = PaddingInfo(available - needed, trailing_size)
         new_padding = info._get_padding(pad_func)
